@@ -41,6 +41,7 @@ class Built:
         self.engine = None; self.calls = []; self.schema_name = None; self.model = None
         self.gate = None          # optional async callable(coord, path) awaited by every explicit resolver
         self.type_calls = []
+        self.scribble = False     # resolvers modify their own `args` in place after use (C15)
 
 def path_list(info):
     return info.path.as_list() if hasattr(info.path, "as_list") else list(info.path or [])
@@ -51,11 +52,21 @@ def make_resolver(built, coord, spec):
         built.calls.append({"coord": coord, "path": path_list(info), "parent": enc(parent), "args": enc(dict(args)), "ctx": ctx})
         if built.gate is not None:
             await built.gate(coord, path_list(info), ctx)
+        if kind == "argEcho" and built.scribble:
+            import copy
+            res = copy.deepcopy(args.get(spec["arg"]))
+        elif kind == "argEcho": res = args.get(spec["arg"])
+        if built.scribble:
+            # a resolver is free to modify ITS OWN arguments: nothing of it may be seen by another call
+            for v in list(args.values()):
+                if isinstance(v, list): v.append("scribble")
+                elif isinstance(v, dict): v["scribble"] = "scribble"
+            args["scribble"] = "scribble"
         if kind == "const": return dec(spec["v"])
         if kind == "raise": raise dec(spec["v"])
         if kind == "parentKey":
             return parent.get(spec["key"]) if isinstance(parent, dict) else None
-        if kind == "argEcho": return args.get(spec["arg"])
+        if kind == "argEcho": return res
         raise RuntimeError("bad resolver spec")
     return resolver
 
